@@ -45,7 +45,8 @@ def queries(tier):
         qs.append(bq(i, 'h_and_wide'))
         qs.append(bq(i, 'h_ffb'))
         qs.append(bq(i, 'h_copy_assign'))
-        qs.append(bq(i, 'h_mul'))
+        qs.append(bq(i, 'h_mul', defs={'DS_CONTRACT': 1, 'KF_EXCL_C19_mul_zero': 1}))
+        qs.append(bq(i, 'h_mul', name='mul3', defs={'DS_CONTRACT': 1, 'KF_EXCL_C19_mul_zero': 1, 'IDX': nwords(i)-1}))
         qs.append(bq(i, 'h_div'))
         qs.append(bq(i, 'h_narrow'))
     return qs
